@@ -108,6 +108,13 @@ def run(ctx):
                     else:
                         c["const"] = const
                 ojobs.append({"id": 10 ** 5 + len(ojobs), "calls": [c], "expect": {"name": "n", "help": "h", "ns": "", "sub": "", "const": sorted(map(list, const)), "var": []}})
+            # several label maps that repeat a name: the explicit twin is Opts::const_labels of the maps merged left to right with
+            # HashMap::extend (what the macro body spells out), so the LATER map's value stands
+            if tc is False and const:
+                k0, v0 = const[0]
+                c = {"op": "opts_macro", "name": "n", "help": "h", "tc": tc, "const": const + [["zz", "first"]], "const2": [[k0, v0 + "-later"], ["zz", "second"]]}
+                merged = dict(map(tuple, const)); merged.update({"zz": "second", k0: v0 + "-later"})
+                ojobs.append({"id": 10 ** 5 + len(ojobs), "calls": [c], "expect": {"name": "n", "help": "h", "ns": "", "sub": "", "const": sorted(map(list, merged.items())), "var": []}})
             for b in ([], [0.5, 1.0]):
                 if const and not b:
                     continue
